@@ -212,8 +212,19 @@ fn inline_record<T: DiffableStr + ?Sized>(case: i64, alg: Algorithm, mode: &str,
                 rec::install_hostile_clock(); // no deadline is passed: the clock must be unobservable
             }
             let deadline = if expired { Some(rec::far_future()) } else { None };
-            let inl: Vec<Value> = diff
-                .iter_inline_changes_deadline(op, deadline)
+            // every third case of the deadline-free mode goes through iter_inline_changes(op), which
+            // sets its own 500 ms budget: under the hostile clock that budget is "used up" at once,
+            // under no clock it is ample - the property holds either way
+            let default_entry = !expired && case % 3 == 0;
+            let it: Box<dyn Iterator<Item = similar::InlineChange<'_, T>>> = if default_entry {
+                if case % 2 == 0 {
+                    rec::remove_clock();
+                }
+                Box::new(diff.iter_inline_changes(op))
+            } else {
+                Box::new(diff.iter_inline_changes_deadline(op, deadline))
+            };
+            let inl: Vec<Value> = it
                 .map(|c| {
                     json!([tagnum(c.tag()), c.old_index().map(|x| x as i64).unwrap_or(-1),
                            c.new_index().map(|x| x as i64).unwrap_or(-1),
